@@ -26,6 +26,9 @@ type Contract struct {
 	Ensures   []*Clause
 	Modifies  []string
 	HasMod    bool
+	// Unshared: components assumed not to be written by other goroutines at this function's
+	// synchronisation points (select, receive): they survive the havoc there. An assumption.
+	Unshared []string
 	Loops     map[int][]*Clause
 	LoopMods  map[int][]string
 	Options   map[string]string
@@ -146,6 +149,8 @@ type Lemma struct {
 	Inducts   []*LemmaInduct // induction hypotheses: the lemma at smaller arguments
 	Decreases *CExpr
 	Src       string
+	// LemmaOnly: offered only while proving other lemmas, never in the VC of a function
+	LemmaOnly bool
 }
 
 type LemmaInduct struct {
@@ -155,6 +160,7 @@ type LemmaInduct struct {
 }
 
 type Registry struct {
+	PkgAlias   map[string]string // pkgalias name -> import path
 	ElemInvs   []*MapInv // invariants on every element stored in any slice of the given type
 	FrameSets  map[string][]string
 	Lemmas     map[string]*Lemma
@@ -174,9 +180,9 @@ func newRegistry() *Registry {
 }
 
 var stmtKeywords = map[string]bool{
-	"package": true, "func": true, "requires": true, "ensures": true, "assume_ensures": true, "assert_at": true, "assume_at": true, "modifies": true, "loop": true,
+	"package": true, "func": true, "requires": true, "ensures": true, "assume_ensures": true, "assert_at": true, "assume_at": true, "modifies": true, "unshared": true, "loop": true,
 	"invariant": true, "option": true, "trusted": true, "pure": true, "spec": true, "ufunc": true,
-	"axiom": true, "ghost": true, "decreases": true, "opaque": true, "macro": true, "mapvalues": true, "elemvalues": true, "guarded": true, "monitor": true, "frameset": true, "dead": true, "lemma": true, "induct": true,
+	"axiom": true, "ghost": true, "decreases": true, "opaque": true, "macro": true, "mapvalues": true, "elemvalues": true, "guarded": true, "monitor": true, "frameset": true, "pkgalias": true, "lemmaonly": true, "dead": true, "lemma": true, "induct": true,
 }
 
 type rawStmt struct {
@@ -369,6 +375,15 @@ func (r *Registry) loadContractFile(path string, pkgPath string) error {
 				}
 				cur.Loops[n] = append(cur.Loops[n], &Clause{Text: text, Expr: e, Src: s.src})
 			}
+		case "unshared":
+			if cur == nil {
+				return fail("unshared outside func")
+			}
+			for _, m := range strings.Split(s.rest, ",") {
+				if m = strings.TrimSpace(m); m != "" {
+					cur.Unshared = append(cur.Unshared, m)
+				}
+			}
 		case "modifies":
 			if cur == nil {
 				return fail("modifies outside func")
@@ -407,6 +422,17 @@ func (r *Registry) loadContractFile(path string, pkgPath string) error {
 				return fail(`dead needs '"anchor text"'`)
 			}
 			cur.Dead = append(cur.Dead, m[1])
+		case "pkgalias":
+			// pkgalias name = import/path   (a package name usable in type expressions of any contract)
+			name, path, ok := strings.Cut(s.rest, "=")
+			if !ok {
+				return fail("pkgalias needs 'name = import/path'")
+			}
+			if r.PkgAlias == nil {
+				r.PkgAlias = map[string]string{}
+			}
+			r.PkgAlias[strings.TrimSpace(name)] = strings.TrimSpace(path)
+			cur = nil
 		case "frameset":
 			// frameset name: comp, comp, ...   (a named list for use as "@name" in modifies clauses)
 			name, text, ok := strings.Cut(s.rest, ":")
@@ -460,6 +486,11 @@ func (r *Registry) loadContractFile(path string, pkgPath string) error {
 			lastSpec = sf
 			cur = nil
 			curLemma = nil
+		case "lemmaonly":
+			if curLemma == nil {
+				return fail("lemmaonly outside a lemma")
+			}
+			curLemma.LemmaOnly = true
 		case "decreases":
 			if curLemma != nil {
 				e, err := parseCExpr(s.rest)
